@@ -59,6 +59,8 @@ impl Prop for C16 {
             rebuild: 3,
             extra: 3,
             pressure: 0,
+            mass_delete: 1,
+            big: 2,
         };
         (history(w, EvCfg::default(), tier.pick(30, 120)), 0u8..3, any::<bool>())
             .prop_map(|(mut ops, n_extra, end_rebuild)| {
@@ -71,6 +73,9 @@ impl Prop for C16 {
     }
     fn label_floors(&self) -> Vec<(&'static str, f64)> {
         vec![("rebuild", 0.5), ("reopen", 0.3), ("two-rebuilds", 0.1)]
+    }
+    fn release_fraction(&self, tier: Tier) -> f64 {
+        tier.pick(0.3, 0.5)
     }
     fn max_shrink_iters(&self) -> u32 {
         400
